@@ -658,7 +658,9 @@ func runC13(p c13Plan, c *stats.Case) error {
 	}
 
 	validator := state.NewStateValidator(oracle)
-	verr, pan := call(func() error { return validator.ValidateContent(append([]byte{}, keyBytes...), append([]byte{}, content...)) })
+	verr, pan := call(func() error {
+		return validator.ValidateContent(append([]byte{}, keyBytes...), append([]byte{}, content...))
+	})
 	if pan != "" {
 		return fmt.Errorf("StateValidator.ValidateContent panicked (%s); reference: %v", pan, refErr)
 	}
